@@ -3,6 +3,8 @@
    storage state; the body parsers, the key parser and the storage put are Section variables (the only thing used about a
    body parser is that it is a total function bytes -> option tree).  Go run-time panics are explicit outcomes. *)
 From Pyro Require Import Model.Base Model.TimeParse Model.Server Proofs.TimeParseProofs Proofs.ServerProofs.
+From Pyro Require Import Model.Tree Model.Segment Model.Storage Model.TTrie Model.TextFormats Proofs.StorageProofs Proofs.C06ProfileProofs Proofs.C16Concrete.
+From Pyro Require Model.Ingest Proofs.TreeCodecProofs.
 Local Open Scope Z_scope.
 
 Section C16.
@@ -82,4 +84,78 @@ Example C16_render_nonvacuous :
   render [(k_from, [49;49;48]%N); (k_until, [49;48;53]%N); (k_format, v_json)] 0 0 = Status 422 /\
   render [(k_from, [49;48;48]%N); (k_until, [49;48;53]%N); (k_format, v_json)] 0 0 = Status 200 /\
   render [(k_from, [49;48;48]%N); (k_until, [49;48;53]%N)] 0 0 = Status 422.
+Proof. vm_compute. repeat split; reflexivity. Qed.
+
+(* ---------------------------------------------------------------------------------------------------------------- *)
+(* The same statements for the CONCRETE handler (Proofs/C16Concrete.v): profile trees of Model/Tree.v, the four body
+   parsers of Model/Ingest.v (TreeCodec, TTrie, TextFormats), Key.parse, the metadata defaults of Model/Ingest.v and the
+   plain-map storage of Model/Storage.v (st_put).  Partial in two places, both stated in C16Concrete.v: a series name is
+   read as runes byte by byte (exact for ASCII names: there is no UTF-8 decoder model), and the storage model takes whole
+   seconds (the handler has already normalised the window to multiples of 10 s). *)
+
+(* status 200 => the storage state is st_put of the tree parsed from the WHOLE body, under Key.parse of the name, with
+   the metadata of the query, in the clamped and normalised window (>= one slot, starting at from rounded down) *)
+Theorem C16_ack_concrete : forall rq e st st', conc_ingest rq e st = (Status 200, st') ->
+  exists ip t w0 w1,
+    conc_params rq e = Some ip /\
+    conc_parser (ip_format _ _ ip) (rq_body rq) = Some t /\
+    w0 = floor10 (ip_from _ _ ip) /\ w0 + ten_s <= w1 /\
+    e_space_ok e = true /\
+    (forall thr, e_retention_thr e = Some thr -> thr <= ip_from _ _ ip) /\
+    st' = fst (st_put None (put_input_of (sid_of_name (q_get k_name (rq_query rq))) w0 w1 t (meta_of_query (rq_query rq))) st).
+Proof. exact ack_concrete. Qed.
+Print Assumptions C16_ack_concrete.
+
+(* any other status => the storage state (segments and trees) is unchanged *)
+Theorem C16_reject_concrete : forall rq e st o st', conc_ingest rq e st = (o, st') -> o <> Status 200 -> st' = st.
+Proof. exact reject_concrete. Qed.
+Print Assumptions C16_reject_concrete.
+
+Theorem C16_total_concrete : forall rq e st, exists code, fst (conc_ingest rq e st) = Status code.
+Proof. exact total_concrete. Qed.
+Print Assumptions C16_total_concrete.
+
+(* "the whole body" (with C06): in every wire format, the body rendered from a multiset of records parses to the
+   profile of ALL the records — entry_ok, tt_fitsb, t_fitsb, cap as in C06_formats_agree *)
+Theorem C16_whole_body : forall f cap ms, Forall entry_ok ms ->
+  tt_fitsb 1 1 (tt_of_multiset ms) = true -> TreeCodecProofs.t_fitsb (Ingest.profile_of ms) = true ->
+  (t_size (Ingest.profile_of ms) <= cap)%nat ->
+  conc_parser f (body_of f cap ms) = Some (Ingest.profile_of ms).
+Proof. exact whole_body. Qed.
+Print Assumptions C16_whole_body.
+
+(* with C01_exact: the handler acknowledges on top of any history of uploads; then the state is the history extended by
+   the request's upload, and — for a single-slot window, under the hypotheses of C01_exact for the extended history —
+   a query of the request's own series and window returns for EVERY stack what it returned before plus the count of that
+   stack in the request's profile (left out: windows of several slots, where C01 needs counts divisible by the span) *)
+Theorem C16_ack_then_query : forall K pis rq e st' p, conc_ingest rq e (st_after pis) = (Status 200, st') ->
+  exists pi t,
+    st' = st_after (pis ++ [pi]) /\
+    pi_sid pi = sid_of_name (q_get k_name (rq_query rq)) /\ pi_tree pi = t /\ pi_meta pi = meta_of_query (rq_query rq) /\
+    conc_parser (select_format (q_get k_format (rq_query rq)) (rq_content_type rq)) (rq_body rq) = Some t /\
+    (Forall (exact_put K) (pis ++ [pi]) -> key_consistent (pis ++ [pi]) -> no_average (pis ++ [pi]) ->
+     snd (pi_ab pi) - fst (pi_ab pi) = 1 ->
+     answer p (pi_sid pi) (pi_from pi) (pi_until pi) (pis ++ [pi]) =
+     answer p (pi_sid pi) (pi_from pi) (pi_until pi) pis + Z.of_N (t_self_at p t)).
+Proof. exact ack_then_query. Qed.
+Print Assumptions C16_ack_then_query.
+
+(* non-vacuity: the reversed window of D8 (from=1600000110, until=1600000105) with the collapsed body "a;b 3\nc 2\n"
+   on the empty storage: acknowledged; the upload satisfies the hypotheses of C01_exact and spans one slot; the query
+   of that slot answers 3 for the stack a;b and 2 for c; a second, rejected request leaves that state as it is *)
+Definition exc_rq (body : bytes) : request :=
+  {| rq_query := [(k_from, [49;54;48;48;48;48;48;49;49;48]%N); (k_until, [49;54;48;48;48;48;48;49;48;53]%N); (k_name, [97;112;112]%N)];
+     rq_content_type := []; rq_body := body |}.
+Definition exc_st : st_state := snd (conc_ingest (exc_rq [97;59;98;32;51;10;99;32;50;10]%N) ex_env st_init).
+Definition exc_pi : put_input :=
+  put_input_of (sid_of_name [97;112;112]%N) 1600000110000000000 1600000120000000000
+    (Ingest.profile_of [([97;59;98]%N, 3%N); ([99]%N, 2%N)]) (meta_of_query (rq_query (exc_rq []))).
+
+Example C16_concrete_nonvacuous :
+  fst (conc_ingest (exc_rq [97;59;98;32;51;10;99;32;50;10]%N) ex_env st_init) = Status 200 /\
+  exc_st = st_after [exc_pi] /\
+  exact_putb 63 exc_pi = true /\ snd (pi_ab exc_pi) - fst (pi_ab exc_pi) = 1 /\
+  answer [[97]; [98]]%N (pi_sid exc_pi) (pi_from exc_pi) (pi_until exc_pi) [exc_pi] = 3 /\
+  answer [[99]]%N (pi_sid exc_pi) (pi_from exc_pi) (pi_until exc_pi) [exc_pi] = 2 /\
+  conc_ingest (exc_rq [97;59;98;32;120;10]%N) ex_env exc_st = (Status 422, exc_st).
 Proof. vm_compute. repeat split; reflexivity. Qed.
